@@ -4,7 +4,7 @@ import json
 
 PY = "/venv/bin/python"
 TRUST = ("Trusted: CPython ast parses what the interpreter would run; documented behaviour of the library vocabulary frozen in sa/lib.py; the analyser itself "
-         "(guarded by vacuity floors; by the thorough tier's self-test: 341 variants incl. 38 independently seeded property-breaking changes that must be reported and 38 independent refactorings that must pass; "
+         "(guarded by vacuity floors; by the thorough tier's self-test: 360 variants incl. 57 independently seeded property-breaking changes that must be reported and 38 independent refactorings that must pass; "
          "and by two false-alarm fuzzers over the current tree). A value the analyser has no model for never yields a VIOLATION: the run ends UNDECIDED (exit 2).")
 
 CHECKS = {
@@ -52,17 +52,21 @@ NOT_YET = {}
 
 # rules added after the independent seeding rounds (DESIGN.md section 10), appended to the level text
 ADDENDA = {
- "C02": " The schedule start/end fields are additionally held to C11's encoder normal form (today's LOCAL date ++ HH:MM parsed with the same directives).",
+ "C01": " PREMISE-C04: the signer summary used for every frame is re-derived with C04's rules on the current tree; what C04 cannot discharge is inherited.",
+ "C03": " R3.6: every reader.read(n) asks for a constant n >= the longest reply of the protocol (reference data), so no reply tail is taken for the next login reply. PREMISE-C04 as in C01.",
+ "C06": " R6.5: the builder keeps no memory between datagrams (no store outliving the call, no global, no mutated module-level container).",
+ "C09": " PREMISE-C04 as in C01.",
+ "C02": " PREMISE-C04 as in C01. The schedule start/end fields are additionally held to C11's encoder normal form (today's LOCAL date ++ HH:MM parsed with the same directives).",
  "C05": " R5.7: on not-ON paths no guard (of a return or a raise) reads the bytes of the fields that are reported as zero in that state. R5.8: the trigger of every raising path reads only bytes of the delivered class's own fields.",
  "C07": " R7.5 (shared with C05 R5.7): a not-ON broadcast reaches the callback whatever the bytes of the normalised fields are.",
  "C10": " R10.5 (structural): nothing on the listing path is memoised. The record loop is accepted as 32-nibble chunks or as area[off:off+32] over range(0, len(area), 32).",
  "C11": " R11.5 (structural): neither function is memoised.",
  "C12": " R12.5: encoder and decoder are not memoised and the decoder's result set is created inside the call.",
  "C13": " Three algorithms are recognised for the chosen day, each with a stated one-line lemma: sorted + first strictly later else first; forward walk (w+k)%7 for k=1..7; min by key (d-w-1)%7.",
- "C14": " Accepted forms: ite(E<S, E+1d, E)-S; (E-S)+1d under (E-S)<0; (E-S)%1d; minutes arithmetic (Em-Sm)%1440 rendered H:MM:00. A deviating part of a recognised form is a violation; a foreign arithmetic is answered 'cannot decide' (exit 2).",
+ "C14": " R14.2: the duration a schedule object reports is calc_duration of its own times and nothing on the way is memoised. Accepted forms: ite(E<S, E+1d, E)-S; (E-S)+1d under (E-S)<0; (E-S)%1d; minutes arithmetic (Em-Sm)%1440 rendered H:MM:00. A deviating part of a recognised form is a violation; a foreign arithmetic is answered 'cannot decide' (exit 2).",
  "C04": " x%256, x//256, x&255, x>>8 of a CRC and crc_hqx chained over pieces are canonicalised to the same term; arithmetic that does not normalise is answered 'cannot decide' (exit 2).",
  "C15": " R15.7 decides that min and max of the temperature range are updated independently for a numeric key[2:4].",
- "C16": " R16.6: build_command/build_swing_command store nothing on the remote (no memory between calls).",
+ "C16": " PREMISE-C04 as in C01. R16.6: build_command/build_swing_command store nothing on the remote (no memory between calls).",
  "C17": " R17.6: endpoints are bound exclusively (no reuse_port/reuse_address/pre-bound socket), so binding an occupied port fails and a second start cannot orphan transports.",
 }
 
